@@ -203,7 +203,12 @@ pub(super) fn parse_method_arguments(
                 return None;
             };
             let Pat::Ident(pat_ident) = &*pat_type.pat else {
-                return None;
+                // The parameter's name is its name on the wire; without one the argument would be
+                // left out of the call.
+                return Some(Err(Error::new_spanned(
+                    &pat_type.pat,
+                    "proxy method parameters must be named by an identifier",
+                )));
             };
 
             let name = &pat_ident.ident;
